@@ -128,6 +128,20 @@ def run(ctx):
             continue
         for t in times:
             items.append((se, t, {certurl: k['chain']}))
+    # several members in the Signature header: "run the algorithm for each signature, stopping at the first valid one" -- a member that is
+    # incomplete, unparsable as a signature, or complete but wrong must not stop the valid one from being tried, whichever comes first
+    seen_ver = set()
+    for r, (k, times), (e, sp, _) in zip(res, meta, cases):
+        se = parse_ex(r) if r else None
+        if not se or se[0] in seen_ver: continue
+        seen_ver.add(se[0])
+        good = unhex(se[6])
+        decoys = [b'other;cert-url="https://example.com/other.cbor";sig=*AAAA*', b'other', b'other;sig=*AAAA*;integrity="digest/mi-sha256-03"',
+                  good.replace(b'sig=*', b'sig=*AAAA', 1).replace(b'label', b'wrong', 1), good.replace(b';date=', b';date=1', 1), good.replace(b'validity-url="https://', b'validity-url="https://evil.', 1),
+                  good.replace(b';expires=', b';expiry=', 1), good.replace(b'cert-sha256=*', b'cert-sha256=*AAAA', 1)]
+        for dcy in decoys:
+            for hdr in (dcy + b', ' + good, good + b', ' + dcy, dcy, dcy + b', ' + dcy + b', ' + good):
+                items.append((se[:6] + [hexs(hdr)] + se[7:], (base_date + 10, 0), {certurl: k['chain']}))
     ctx.stats = dict(cases=len(cases), not_signable=unsigned)
     verify_stage(ctx, items)
     # IsCacheable directly + Go time arithmetic
